@@ -113,6 +113,24 @@ func Eval(spec *Spec, args []*Stage) (*Ref, error) {
 
 func keyOf(r Row, p int) string { return RowKey(r[:p]) }
 
+// EvalNode evaluates a single node on given input stages.
+func EvalNode(n *Node, in []*Stage) (*Stage, error) {
+	st, _, err := evalNode(n, in, nil)
+	if err != nil {
+		return nil, err
+	}
+	st.Schema = n.Schema
+	if st.NShard == 0 {
+		st.NShard = n.Shards
+	}
+	return st, nil
+}
+
+// SingleShard wraps rows as a one-shard, fully ordered stage.
+func SingleShard(s Schema, rows []Row) *Stage {
+	return &Stage{Level: LShardSeq, NShard: 1, Shards: [][]Row{rows}, Schema: s}
+}
+
 func evalNode(n *Node, in []*Stage, args []*Stage) (*Stage, int, error) {
 	switch n.Op {
 	case "const":
